@@ -1144,6 +1144,50 @@ func (r *runner) attack(at Attack) error {
 
 		return send(request(uuid.New().String(), inv.ID, victimDID,
 			strings.Replace(peerDoc, `"recipientKeys":[`, `"routingKeys":["`+sender+`"],"recipientKeys":[`, 1)), inv)
+	case "req-repoint-accept", "req-repoint-priority", "req-repoint-svctype", "req-repoint-relationship", "req-repoint-svcid":
+		// the peer's own document with one member changed that is neither a key nor the endpoint
+		peerDoc := r.capturedDoc(victimDID)
+		if peerDoc == "" {
+			return fmt.Errorf("no captured document of the peer")
+		}
+
+		var dm map[string]interface{}
+		if e := json.Unmarshal([]byte(peerDoc), &dm); e != nil {
+			return e
+		}
+
+		svcs, _ := dm["service"].([]interface{})
+		if len(svcs) == 0 {
+			return fmt.Errorf("document without service")
+		}
+
+		first, _ := svcs[0].(map[string]interface{})
+
+		switch at.Kind {
+		case "req-repoint-accept":
+			first["accept"] = []string{"didcomm/v2"}
+		case "req-repoint-priority":
+			first["priority"] = 7
+		case "req-repoint-svctype":
+			first["type"] = "IndyAgent"
+		case "req-repoint-svcid":
+			first["id"] = fmt.Sprint(first["id"], "-x")
+		case "req-repoint-relationship":
+			if auth, ok := dm["authentication"]; ok {
+				dm["assertionMethod"] = auth
+				dm["capabilityInvocation"] = auth
+				delete(dm, "authentication")
+			} else {
+				return fmt.Errorf("document without authentication")
+			}
+		}
+
+		docb, e := json.Marshal(dm)
+		if e != nil {
+			return e
+		}
+
+		return send(request(uuid.New().String(), inv.ID, victimDID, string(docb)), inv)
 	case "req-docid-fresh": // request and attached document name two different new DIDs; then the exchange is completed
 		th := uuid.New().String()
 		fake2 := "did:peer:1zQm" + base58ish(r.rng, 44)
@@ -1653,7 +1697,8 @@ func base58ish(r *hx.Rng, n int) string {
 
 // ---------- generators ----------
 
-var attackKinds = []string{"req-repoint", "req-repoint-badpthid", "req-repoint-keys", "req-repoint-endpoint", "req-repoint-routing", "req-docid-mismatch",
+var attackKinds = []string{"req-repoint", "req-repoint-badpthid", "req-repoint-keys", "req-repoint-endpoint", "req-repoint-routing", "req-repoint-accept", "req-repoint-priority", "req-repoint-svctype",
+	"req-repoint-relationship", "req-repoint-svcid", "req-docid-mismatch",
 	"req-docid-fresh", "lc-req-repoint", "req-id-remap", "req-id-remap-known", "resp-case-remap", "resp-case-remap-wrapper", "complete-case-remap", "ping-from-spoof", "rotate-takeover", "rotate-takeover-relkid", "req-nodoc", "req-keysteal", "req-keysteal-notation", "req-keysteal-indy", "req-keysteal-indy-didkey", "req-keysteal-second-block",
 	"req-keysteal-v2-block", "init-repoint",
 	"complete-replay", "req-same-thread", "resp-forge", "ping-unknown", "owner-reuse"}
